@@ -284,6 +284,13 @@ class Run(object):
             for t in self.ties[:5]:
                 print("  broken %s: %s %s" % (t["kind"], t["name"], t["detail"][:200]))
         wall = time.time() - self.t0
+        try:
+            from tracers import ORACLE
+            if any(ORACLE.values()):
+                self.notes.append("numerical derivative reference (Ridders extrapolation with error estimate): converged and used at %d points, not converged and skipped at %d points" % (
+                    ORACLE["reference_converged"], ORACLE["reference_not_converged"]))
+        except Exception:
+            pass
         cov = dict(
             obligations=len(self.obligations), discharged=self.discharged,
             checker_cmd=checker_cmd or ("cd lean && lake build AtsimModel.Props.%s && lake env lean .audit/Audit_%s.lean" % (self.prop, self.prop)),
